@@ -449,3 +449,6 @@ def run(ctx):
     # a relation literal that is left open is decided later by the propagation of the difference-logic theory: what it then means rests on the structural
     # clauses of C10 (sibling agreement of the two theories, explanation walks, the literal being explained), evaluated here under their own rule ids
     ctx.include('C10')
+    # the RIDDLE relations on tp operands reach these builders through core::lt/leq/eq/geq/gt (C11.R6), evaluated here as C12.R5
+    from .C11 import r6 as routing
+    routing(ctx, fs, rid='C12.R5')
